@@ -4,7 +4,7 @@
 (* every abstract case except the lead classes (which are printed and must be  *)
 (* confirmed or refuted on the real code), (b) checks non-vacuity, (c) exports *)
 (* the complete case products of all tables for the Go harness.                *)
-EXTENDS CodecDefs, Json, SequencesExt
+EXTENDS CodecCases, Json, SequencesExt
 
 \* --- design: Holds(c, Expected(c)) wherever no lead is declared, and every lead really is one
 MsgDesign  == \A c \in MsgCaseSet  : HoldsMsg(c, ExpectedMsg(c)) <=> ~MsgLead(c)
@@ -16,6 +16,8 @@ VcDesign   == \A c \in VcCaseSet   : HoldsVc(c, ExpectedVc(c)) <=> ~VcLead(c)
 FrDesign   == \A c \in FrCaseSet   : /\ ExpectedFr(c) # {} /\ ExpectedFr(c) \subseteq FrOuts
                                       /\ \A out \in ExpectedFr(c) : HoldsFr(c, [out |-> out])
 ArDesign   == \A c \in ArCaseSet   : HoldsAr(c, ExpectedAr(c)) <=> ~ArLead(c)
+LtDesign   == \A c \in LtCaseSet   : HoldsLt(c, ExpectedLt(c)) <=> ~LtLead(c)
+LbDesign   == \A c \in LbCaseSet   : \A n \in {1, 5, 200} : HoldsLb(c, ExpectedLb(c, n))
 \* one row per (type, member)
 ArTableFn  == \A r1, r2 \in ArTable : (r1[1] = r2[1] /\ r1[2] = r2[2]) => r1 = r2
 
@@ -46,6 +48,26 @@ Witnesses ==
   /\ \A c \in ArCaseSet : (~ArDistinguished(c.type, c.member) /\ c.arity # "one")
         => HoldsAr(c, [ExpectedAr(c) EXCEPT !.isnil = ~@])
 
+\* lifetime: a decoder whose raw members are views of its input fails exactly for the kinds that have a raw
+\* member, on exactly that member, and for every way of reusing the buffer; every owner of a buffer occurs
+LtWitnesses ==
+  /\ \A c \in LtCaseSet : HoldsLt(c, LtOutcome(c, TRUE)) <=> (LtRaw(c.kind) = {})
+  /\ \A c \in LtCaseSet : \A m \in LtMembers :
+        (LtValueOK(c, LtOutcome(c, TRUE), m) /\ LtReencOK(c, LtOutcome(c, TRUE), m)) <=> (m \notin LtRaw(c.kind))
+  /\ UNION {LtRaw(k) : k \in LtKinds} = {"params", "result", "errData"}
+  /\ \A pa \in LtPaths, k \in LtKinds : \E c \in LtCaseSet : c.path = pa /\ c.kind = k
+  /\ \A ru \in LtReuses : \E c \in LtCaseSet : c.reuse = ru
+  /\ \A c \in LbCaseSet : ~HoldsLb(c, [n |-> 5, answered |-> 5, intact |-> 4])
+  /\ \A c \in LbCaseSet : ~HoldsLb(c, [n |-> 5, answered |-> 4, intact |-> 4])
+\* write side: the predicate on what the peer reads (the machine is checked in CodecWrite.tla)
+WwWitnesses ==
+  /\ FramesIntact([k |-> 2], [errs |-> 0, frames |-> <<2, 1>>, peer |-> <<2, 1>>, peerEnd |-> "eof"])
+  /\ ~FramesIntact([k |-> 2], [errs |-> 0, frames |-> <<0, 2>>, peer |-> <<>>, peerEnd |-> "error"])   \* a torn line
+  /\ ~FramesIntact([k |-> 2], [errs |-> 0, frames |-> <<1, 1>>, peer |-> <<1, 1>>, peerEnd |-> "eof"])     \* one twice, one lost
+  /\ ~FramesIntact([k |-> 2], [errs |-> 0, frames |-> <<1>>, peer |-> <<1>>, peerEnd |-> "eof"])
+  /\ ~FramesIntact([k |-> 3], [errs |-> 1, frames |-> <<1, 2, 3>>, peer |-> <<1, 2, 3>>, peerEnd |-> "eof"])
+  /\ ~FramesIntact([k |-> 2], [errs |-> 0, frames |-> <<1, 2>>, peer |-> <<1>>, peerEnd |-> "error"])
+
 LeadIds == {c.id : c \in {x \in MsgCaseSet : ~HoldsMsg(x, ExpectedMsg(x)) /\ x.method # "empty"}}
 
 SetSeq(S) == SetToSeq(S)
@@ -58,6 +80,8 @@ Export ==
   /\ ndJsonSerialize("cases_vc.ndjson", SetSeq(VcCaseSet))
   /\ ndJsonSerialize("cases_fr.ndjson", SetSeq(FrCaseSet))
   /\ ndJsonSerialize("cases_ar.ndjson", SetSeq(ArCaseSet))
+  /\ ndJsonSerialize("cases_lt.ndjson", SetSeq(LtCaseSet))
+  /\ ndJsonSerialize("cases_lb.ndjson", SetSeq(LbCaseSet))
 
 ASSUME MsgDesign
 ASSUME WireDesign
@@ -66,11 +90,15 @@ ASSUME ReqDesign
 ASSUME VcDesign
 ASSUME FrDesign
 ASSUME ArTableFn /\ ArDesign
+ASSUME LtDesign /\ LbDesign
 ASSUME ClassifyTotal /\ ValidAccepted
 ASSUME Witnesses
+ASSUME LtWitnesses
+ASSUME WwWitnesses
 ASSUME PrintT(ToJson([msg |-> Cardinality(MsgCaseSet), wire |-> Cardinality(WireCaseSet),
                       val |-> Cardinality(ValCaseSet), req |-> Cardinality(ReqCaseSet), vc |-> Cardinality(VcCaseSet),
                       fr |-> Cardinality(FrCaseSet), ar |-> Cardinality(ArCaseSet),
+                      lt |-> Cardinality(LtCaseSet), lb |-> Cardinality(LbCaseSet),
                       msgLeads |-> Cardinality({c \in MsgCaseSet : MsgLead(c)}),
                       valLeads |-> Cardinality({c \in ValCaseSet : ValLead(c)}),
                       reqLeads |-> Cardinality({c \in ReqCaseSet : ReqLead(c)}),
